@@ -70,6 +70,12 @@ class AFrame(Stub):
             raise Unsupported("resample() with extra arguments")
         return AFrameRes(self, rule)
 
+    def __contains__(self, k):        # `"col" in frame` asks for a column label
+        return k in self.cols
+
+    def __iter__(self):               # iterating a frame yields its column labels
+        return iter(sorted(self.cols))
+
     def __getattr__(self, name):
         # row-changing / value-changing operations are recorded, not modelled
         if name.startswith("_"):
@@ -233,8 +239,8 @@ class AConcat(Stub):
 
 class PD(Stub):
     @staticmethod
-    def concat(objs, axis=0, **k):
-        if k:
+    def concat(objs=None, axis=0, **k):
+        if k or objs is None:
             raise Unsupported(f"pd.concat with {sorted(k)}")
         if isinstance(objs, dict):
             items = []
@@ -308,6 +314,27 @@ def interpret_predict(chk, fi: FuncInfo, classes, aggregation, with_observed: bo
             else:
                 items.append({"other": type(x).__name__})
         return {"returns": "concat", "axis": res.axis, "items": items, "ops": list(res.ops), "predict_calls": model.predict_calls}
+    return {"returns": "other", "value": repr(res)[:80], "predict_calls": model.predict_calls}
+
+
+def interpret_plain_predict(chk, fi: FuncInfo, classes, with_observed: bool) -> Dict[str, Any]:
+    """DailyModel.predict(reporting_data) on the abstract model / data object: what is handed back."""
+    it = Interp(step_limit=200_000)
+    _INTERP[0] = it
+    env = ModuleEnv(chk.repo, fi.module, it, {"np": NumpyTerms(), "numpy": NumpyTerms(), "pd": PD(), "pandas": PD()})
+    model = _Model(classes, with_observed)
+    model._baseline_data_type = ClassRef("DailyBaselineData")
+    model._reporting_data_type = ClassRef("DailyReportingData")
+    in_cols = [c for c in ("season", "weekday_weekend", "temperature", "observed") if c != "observed" or with_observed]
+    data = AbsObj({"DailyBaselineData", "DailyReportingData"}, tz="TZ", df=AFrame("input", in_cols), warnings=[], disqualification=[])
+    try:
+        res = Function(fi.node, env, it)(model, data)
+    except InterpRaised as e:
+        return {"raises": e.exc_name.split(".")[-1], "predict_calls": model.predict_calls}
+    except Unsupported as e:
+        raise AnalysisError(f"{fi.key}: predict uses an operation outside the modelled subset: {e}")
+    if isinstance(res, AFrame):
+        return {"returns": "frame", "frame": res.desc(), "predict_calls": model.predict_calls}
     return {"returns": "other", "value": repr(res)[:80], "predict_calls": model.predict_calls}
 
 
